@@ -63,7 +63,8 @@ def main():
     global PATH, ORIG_LOAD_CODE
     corpus, artifacts = sys.argv[1], sys.argv[2]
     flags = sys.argv[3:]
-    base = "/dev/shm" if os.path.isdir("/dev/shm") else artifacts
+    base = os.environ.get("VF_SCRATCH") or ("/dev/shm" if os.path.isdir("/dev/shm") else artifacts)
+    os.environ["VF_SCRATCH"] = base
     PATH = os.path.join(base, "vf-fuzz-%d.pyc" % os.getpid())
     import xdis.marsh as m
     ORIG_LOAD_CODE = m._FastUnmarshaller.dispatch[m.TYPE_CODE]
